@@ -8,6 +8,7 @@ import (
 
 	"github.com/absolute8511/redcon"
 	"github.com/youzan/ZanRedisDB/common"
+	"github.com/youzan/ZanRedisDB/rockredis"
 )
 
 func parseScanArgs(args [][]byte) (cursor []byte, match string, count int, err error) {
@@ -45,6 +46,11 @@ func parseScanArgs(args [][]byte) (cursor []byte, match string, count int, err e
 		}
 
 		i++
+	}
+	// the store returns at most MAX_BATCH_NUM elements per page whatever the count: the handlers below decide
+	// whether a page was the last one by comparing its length with the count, so they must see the same limit
+	if count > rockredis.MAX_BATCH_NUM {
+		count = rockredis.MAX_BATCH_NUM
 	}
 	return
 }
